@@ -13,6 +13,7 @@ import (
 )
 
 type harness struct {
+	progressDirty int // backend checkpoint count at the last non-final SetProgress (+1), see persistCheck
 	clk      clock
 	be       *backend
 	st       *state.State
@@ -55,8 +56,14 @@ func sortByID(rows []M) {
 
 // project reads the whole state through public accessors. Tasks: every task the driver holds a handle
 // for (linked or not); taskCount tells whether there are others.
-func (h *harness) project() M {
-	h.flush()
+func (h *harness) project() M { return h.projectOpt(true) }
+
+// projectOpt(false) reads without forcing a checkpoint first (the counters then come from whatever checkpoint
+// the backend received last).
+func (h *harness) projectOpt(flush bool) M {
+	if flush {
+		h.flush()
+	}
 	st := h.st
 	st.Lock()
 	defer st.Unlock()
@@ -112,6 +119,88 @@ func (h *harness) reacquire() {
 	for _, t := range h.st.Tasks() {
 		visit(t)
 	}
+}
+
+// persistCheck is the per-step persistence oracle: every op runs in its own Lock/Unlock section, so the
+// checkpoint the Backend received last (from a real Unlock, nothing is marshalled by the harness) must already
+// describe the live state: ReadState of those bytes is compared with the live projection after EVERY op, before
+// the harness does anything that could mark the state modified itself. A mutator that changes persisted data
+// without State.writing() shows up here. Documented exception: SetProgress with non-final progress
+// deliberately does not mark the state ("Only mark state for checkpointing if progress is final"): progress is
+// left out of the comparison until the next checkpoint.
+func (h *harness) persistCheck(op Op, prev M, cnt0 int) []string {
+	diffs := []string{}
+	// (a) the op's own Lock/Unlock section changed what can be seen (also of unlinked tasks, which a loaded
+	// state cannot show) but no checkpoint was handed to the backend during it
+	if op.Ev != "SaveReload" && prev != nil && h.be.count() == cnt0 {
+		now := h.projectOpt(false)
+		pv := M{}
+		for k, v := range prev {
+			pv[k] = v
+		}
+		kept := []M{} // handles dropped after a Prune (unlinked tasks) are not a change of the state
+		for _, t := range prev["tasks"].([]M) {
+			if h.tasks[t["id"].(int)] != nil {
+				kept = append(kept, t)
+			}
+		}
+		pv["tasks"] = kept
+		pn, nn := norm(pv), norm(now)
+		nonFinal := op.Ev == "SetProgress" && !(ai(op.Args, "total") > 0 && ai(op.Args, "done") == ai(op.Args, "total"))
+		if nonFinal {
+			for _, side := range []interface{}{pn, nn} {
+				for _, t := range side.(map[string]interface{})["tasks"].([]interface{}) {
+					delete(t.(map[string]interface{}), "progress")
+				}
+			}
+		}
+		var d []string
+		diffProj(pn, nn, "", &d)
+		sort.Strings(d)
+		for _, x := range d {
+			diffs = append(diffs, "changed without a checkpoint: "+x)
+		}
+		if len(diffs) > 0 {
+			return diffs
+		}
+	}
+	// (b) what a reload of the last checkpoint shows
+	if op.Ev == "SetProgress" {
+		if a := op.Args; !(ai(a, "total") > 0 && ai(a, "done") == ai(a, "total")) {
+			h.progressDirty = h.be.count() + 1
+		}
+	}
+	data := h.be.bytes()
+	if data == nil {
+		return append(diffs, "no checkpoint received yet")
+	}
+	sb := &backend{data: data}
+	st2, err := state.ReadState(sb, bytes.NewReader(data))
+	if err != nil {
+		return append(diffs, "ReadState: "+err.Error())
+	}
+	sh := &harness{clk: h.clk, be: sb, st: st2}
+	sh.reacquire()
+	live := h.projectOpt(false)
+	saved := sh.projectOpt(false)
+	keep := []M{}
+	for _, t := range live["tasks"].([]M) {
+		if sh.tasks[t["id"].(int)] != nil {
+			keep = append(keep, t)
+		}
+	}
+	live["tasks"] = keep
+	ln, sn := norm(live), norm(saved)
+	if h.progressDirty == h.be.count()+1 {
+		for _, side := range []interface{}{ln, sn} {
+			for _, t := range side.(map[string]interface{})["tasks"].([]interface{}) {
+				delete(t.(map[string]interface{}), "progress")
+			}
+		}
+	}
+	diffProj(ln, sn, "", &diffs)
+	sort.Strings(diffs)
+	return diffs
 }
 
 func norm(v interface{}) interface{} { // through JSON, so that []int and []interface{} compare equal
